@@ -47,8 +47,40 @@ async def _agen(xs):  # noqa: ANN001, ANN202
         yield x
 
 
+class _ReIter:
+    """an async ITERABLE (not an iterator): every __aiter__() call starts over, like a list
+    does for iter() - code that opens the source twice sees the first elements twice"""
+
+    def __init__(self, xs) -> None:  # noqa: ANN001
+        self.xs = list(xs)
+        self.opened = 0
+
+    def __aiter__(self):  # noqa: ANN204
+        self.opened += 1
+        return _agen(self.xs)
+
+
+class _SyncOnce:
+    """a sync iterable that can be iterated only once (a generator-like source)"""
+
+    def __init__(self, xs) -> None:  # noqa: ANN001
+        self.it = iter(list(xs))
+
+    def __iter__(self):  # noqa: ANN204
+        return self.it
+
+
 def _src(kind: str, xs):  # noqa: ANN001, ANN202
-    return list(xs) if kind == "sync" else _agen(list(xs))
+    if kind == "sync":
+        return list(xs)
+
+    if kind == "areiter":
+        return _ReIter(xs)
+
+    if kind == "sync-once":
+        return _SyncOnce(xs)
+
+    return _agen(list(xs))
 
 
 def _lift(f):  # noqa: ANN001, ANN202
@@ -443,7 +475,7 @@ async def run_case(case: dict, col) -> None:  # noqa: ANN001
         await run_tee_conc(case, col)
         return
 
-    for kind in ("sync", "async"):
+    for kind in ("sync", "async", "areiter", "sync-once"):
         if case["fn"] == "reduce":
             op, init = case["p"]
             xs = case["xs"]
